@@ -147,6 +147,24 @@ fn other_same_class(c: u8, salt: usize) -> u8 {
 /// Variant k of a correct signature: k in 0..64: only position k wrong;
 /// 64..128: positions (k-64)..63 all wrong; 128: the correct signature itself is NOT used.
 pub fn variant(sig: &str, k: usize) -> String {
+    if k >= 1000 {
+        // two wrong characters, at positions i < j, both changed by the same bit mask where that keeps them lower-case
+        // hex characters (errors that cancel under an exclusive-or fold): k = 1000 + 64 i + j
+        let (i, j) = ((k - 1000) / 64, (k - 1000) % 64);
+        let mut b = sig.as_bytes().to_vec();
+        let hex = |c: u8| c.is_ascii_digit() || (b'a'..=b'f').contains(&c);
+        match (1u8..16).find(|m| hex(b[i] ^ m) && hex(b[j] ^ m)) {
+            Some(m) => {
+                b[i] ^= m;
+                b[j] ^= m;
+            }
+            None => {
+                b[i] = other_same_class(b[i], i);
+                b[j] = other_same_class(b[j], j);
+            }
+        }
+        return String::from_utf8(b).unwrap();
+    }
     if k >= 128 {
         // upper-case family: the same wrong characters, letters written in upper case
         // (128..191: only position k-128 wrong; 192: all wrong)
@@ -538,7 +556,7 @@ pub fn tracer_main(args: &[String]) -> i32 {
                     let r = trace_one_tf(w, &cfg, &prov, true, buf_upper, CAP);
                     len_upper = (r.1 as usize).min(CAP);
                     r
-                } else if *v >= 128 {
+                } else if (128..1000).contains(v) {
                     trace_one_tf(w, &cfg, &prov, false, buf_upper, len_upper)
                 } else {
                     trace_one_tf(w, &cfg, &prov, false, buf_lower, len_lower)
@@ -575,7 +593,7 @@ pub fn tracer_main(args: &[String]) -> i32 {
                     steps += 1;
                 })
             } else {
-                let r: &Vec<u64> = if *v >= 128 { &reference_upper } else { &reference };
+                let r: &Vec<u64> = if (128..1000).contains(v) { &reference_upper } else { &reference };
                 trace_one(w, &cfg, &prov, &mut |rip| {
                     if first_div < 0 {
                         let i = steps as usize;
@@ -591,7 +609,7 @@ pub fn tracer_main(args: &[String]) -> i32 {
             }
         };
         if n > 2 || n == 1 {
-            let r: &Vec<u64> = if *v >= 128 { &reference_upper } else { &reference };
+            let r: &Vec<u64> = if (128..1000).contains(v) { &reference_upper } else { &reference };
             if first_div < 0 && (steps as usize) < r.len() {
                 first_div = steps as i64; // shorter than the reference
                 rip_ref = r[steps as usize];
@@ -715,6 +733,27 @@ pub fn run(ctx: &Ctx) -> Report {
             }
         }
     }
+    // two wrong characters whose differences from the right ones are the same bit mask, eight positions (or a multiple)
+    // apart -- what cancels in a word-wise exclusive-or fold
+    {
+        let mut vs: Vec<usize> = Vec::new();
+        if thorough {
+            for i in 0..64usize {
+                for d in [8usize, 16, 24, 32, 40, 48, 56, 1, 7] {
+                    if i + d < 64 {
+                        vs.push(1000 + 64 * i + i + d);
+                    }
+                }
+            }
+        } else {
+            for (i, j) in [(0usize, 8usize), (9, 17), (18, 26), (27, 35), (36, 44), (45, 53), (54, 62), (0, 32), (7, 63)] {
+                vs.push(1000 + 64 * i + j);
+            }
+        }
+        for c in vs.chunks(if thorough { 32 } else { 9 }) {
+            jobs.push((0, 0, c.to_vec(), 0));
+        }
+    }
     let workers = if thorough { workers } else { jobs.len().max(workers) };
     let outputs: Vec<(usize, usize, Vec<serde_json::Value>)> = {
         use rayon::prelude::*;
@@ -771,7 +810,7 @@ pub fn run(ctx: &Ctx) -> Report {
         }
         let reference_upper = &lines[2];
         for l in lines.iter().skip(3) {
-            let reference = if l["variant"].as_u64().unwrap_or(0) >= 128 { reference_upper } else { reference };
+            let reference = if (128..1000).contains(&l["variant"].as_u64().unwrap_or(0)) { reference_upper } else { reference };
             st.evaluations += 1;
             st.validated += 1;
             st.transitions += l["steps"].as_u64().unwrap_or(0);
@@ -800,7 +839,7 @@ pub fn run(ctx: &Ctx) -> Report {
     Report {
         stats: st,
         rule: format!(
-            "for each of {} (request, key) groups ({}): wrong signatures of the correct length — only position p wrong for every p in 0..63{} — substituted within the character's class (digit->digit, letter->letter), in lower case and (every 8th position in quick, all in thorough) with the letters in upper case, each family compared with its own all-wrong reference; the lower-case family is traced again with a logger installed at Debug level that formats every record; six further request shapes — three carry the presented signature twice (a repeated X-Amz-Signature parameter, a repeated Signature= field, a stray X-Amz-Signature query parameter next to header authentication), three vary the request (Host with a port; session token, twelve more signed headers and a repeated query parameter; folded form body behind an absolute-form target; positions 0, 13, 26, 39, 52, 63 in quick, all positions and both secrets in thorough); three more requests carry a nonce chosen so that the signature the server computes begins with '00', ends in '00' or begins with 'ff' (positions 0-3 and 61-63 in quick, all in thorough); the refusal is also traced on an authenticator assembled by hand through the unstable builder with validate_signature called directly, and while another validation of the very same request — the correctly signed one, or another wrong guess — is suspended in its key provider's future (polled until parked before the trace starts, still parked after it); each is validated in a forked child of a warmed-up tracer (the genuine request accepted once, then 14 wrong signatures refused for the same access key) of a single-threaded tracer (ship-profile build, logger off unless stated, byte-wise early-exit memcmp/bcmp linked in) and single-stepped (the child sets the processor's trap flag around the call and a SIGTRAP handler sees every instruction; a ptrace stepper is kept as a fallback, VH_C07_PTRACE=1) from just before to just after sigv4_validate_request; every trace must have the same length and the same RIP-sequence hash as the group's reference trace (all 64 characters wrong), which is itself traced twice to prove the apparatus deterministic. states = distinct (group, trace hash); transitions = machine instructions stepped",
+            "for each of {} (request, key) groups ({}): wrong signatures of the correct length — only position p wrong for every p in 0..63{} — substituted within the character's class (digit->digit, letter->letter), in lower case and (every 8th position in quick, all in thorough) with the letters in upper case, each family compared with its own all-wrong reference; pairs of wrong characters 8 (or a multiple of 8) positions apart that differ from the right ones by the same bit mask (9 pairs in quick; every pair at distances 8..56, 1 and 7 in thorough); the lower-case family is traced again with a logger installed at Debug level that formats every record; six further request shapes — three carry the presented signature twice (a repeated X-Amz-Signature parameter, a repeated Signature= field, a stray X-Amz-Signature query parameter next to header authentication), three vary the request (Host with a port; session token, twelve more signed headers and a repeated query parameter; folded form body behind an absolute-form target; positions 0, 13, 26, 39, 52, 63 in quick, all positions and both secrets in thorough); three more requests carry a nonce chosen so that the signature the server computes begins with '00', ends in '00' or begins with 'ff' (positions 0-3 and 61-63 in quick, all in thorough); the refusal is also traced on an authenticator assembled by hand through the unstable builder with validate_signature called directly, and while another validation of the very same request — the correctly signed one, or another wrong guess — is suspended in its key provider's future (polled until parked before the trace starts, still parked after it); each is validated in a forked child of a warmed-up tracer (the genuine request accepted once, then 14 wrong signatures refused for the same access key) of a single-threaded tracer (ship-profile build, logger off unless stated, byte-wise early-exit memcmp/bcmp linked in) and single-stepped (the child sets the processor's trap flag around the call and a SIGTRAP handler sees every instruction; a ptrace stepper is kept as a fallback, VH_C07_PTRACE=1) from just before to just after sigv4_validate_request; every trace must have the same length and the same RIP-sequence hash as the group's reference trace (all 64 characters wrong), which is itself traced twice to prove the apparatus deterministic. states = distinct (group, trace hash); transitions = machine instructions stepped",
             groups.len(),
             if thorough { "GET vanilla, POST body, query carrier x 2 secrets" } else { "GET vanilla, first secret" },
             if thorough { ", and positions p..63 all wrong for every p" } else { "" }
